@@ -92,6 +92,7 @@ Split(s, sep) == LET RECURSIVE go(_, _) go(i, cur) == IF i > Len(s) THEN <<cur>>
                  IN go(1, "")
 Rules(v) == IF v = "" THEN {} ELSE Range(Split(v, ","))
 IsPointer(t) == Len(t) > 0 /\ Ch(t, 1) = "*"
+Deref0(t) == IF IsPointer(t) THEN SubSeq(t, 2, Len(t)) ELSE t
 IsContext(t) == t = "context.Context"
 AnnFor(m, name) == {a \in Range(m.anns) : a.value = name}
 \* required iff non-pointer, or a path parameter, or explicitly validated as required
@@ -151,9 +152,30 @@ BindParams(m) ==
         ELSE IF as = {} THEN [name |-> s.name, in |-> "?", wire |-> "", type |-> s.type, required |-> FALSE, validate |-> ""]
         ELSE LET a == CHOOSE x \in as : TRUE IN
              [name |-> s.name, in |-> InOf(a.kind), wire |-> WireName(a), type |-> s.type, required |-> RequiredParam(s, a), validate |-> a.validate]]
+\* validateResponsePayload: before a value is written the generated handler validates it - a nil pointer is refused, a struct is
+\* run through the validator - and answers 500 when that fails.  The instrumented controllers return ZERO values, so what matters
+\* is whether the zero value of the result type is valid: "invalid" when it certainly is not (nil pointer; a struct with a
+\* required scalar field), "valid" when it certainly is (nil slice / map; non-struct; a struct without any rule), "unknown" when
+\* deciding it would take a model of the validator library (then the status of a served request is not constrained).
+DeclsNamed(p, n) == {t \in Range(p.types) : t.pkg \o "." \o t.name = n}
+IsSliceT(t) == Len(t) >= 2 /\ SubSeq(t, 1, 2) = "[]"
+ScalarGo(t) == t \in {"string", "bool", "int", "int8", "int16", "int32", "int64", "uint", "uint8", "uint16", "uint32", "uint64", "float32", "float64"}
+ZeroVerdict(p, t) ==
+    IF IsPointer(t) THEN "invalid"
+    ELSE IF IsSliceT(t) \/ IsMap(t) THEN "valid"
+    ELSE LET ds == DeclsNamed(p, t) IN
+         IF ds = {} THEN "valid"
+         ELSE LET d == CHOOSE x \in ds : TRUE IN
+              IF d.kind # "struct" THEN "valid"
+              ELSE IF \E f \in Range(d.fields) : ~f.embed /\ ScalarGo(f.type) /\ "required" \in Rules(f.valid) THEN "invalid"
+              ELSE IF \A f \in Range(d.fields) : ~f.embed /\ f.valid = "" /\ (ScalarGo(f.type) \/ IsPointer(f.type) \/ IsSliceT(f.type) \/ IsMap(f.type)) THEN "valid"
+              ELSE "unknown"
+RespCheck(p, m) == IF "validateResponsePayload" \in DOMAIN p.cfg /\ p.cfg.validateResponsePayload /\ Len(m.ret) = 2 /\ ~ScalarGo(Deref0(m.ret[1])) /\ Deref0(m.ret[1]) # "error"
+                   THEN ZeroVerdict(p, m.ret[1]) ELSE "valid"
 Handlers(p) ==
     { [ctrl |-> CtrlOf(p, m).id, ctrlName |-> CtrlOf(p, m).name, pkg |-> CtrlOf(p, m).pkg, method |-> m.name, verb |-> m.verb, path |-> NormPath(CtrlOf(p, m), m),
-       hidden |-> m.hidden, alts |-> EffectiveSecurity(p.cfg, CtrlOf(p, m), m), params |-> BindParams(m), returnsValue |-> (Len(m.ret) = 2)]
+       hidden |-> m.hidden, alts |-> EffectiveSecurity(p.cfg, CtrlOf(p, m), m), params |-> BindParams(m), returnsValue |-> (Len(m.ret) = 2),
+       respCheck |-> RespCheck(p, m)]
         : m \in {x \in Range(p.methods) : IsApi(x)} }
 
 ExpBody(m) ==
